@@ -83,6 +83,7 @@ type enumCase struct {
 	NowPos   int    `json:"now_after_this_many_groups"`
 	Variant  string `json:"variant"`
 	Wrapper  bool   `json:"storage_wrapper"`
+	Backend  string `json:"storage_backend"`
 	Config   string `json:"config"`
 	Gap      string `json:"gap"`
 	Expected string `json:"model_says"`
@@ -91,7 +92,9 @@ type enumCase struct {
 
 func runEnumCase(t *testing.T, r *rand.Rand, ranks [4]int, nowPos int, variant string, wrapper bool, cfg vkit.RootConfig) {
 	rec := vkit.Rec(prop)
-	w := vkit.NewWorld(vkit.WorldConfig{StorageWrapper: wrapper, RootOpts: cfg.Opts()})
+	// storage back end: in-memory, file, or the repository's store-once test back end
+	backend := []vkit.Backend{vkit.Inmem, vkit.Inmem, vkit.File, vkit.StoreOnce}[r.Intn(4)]
+	w := vkit.NewWorld(vkit.WorldConfig{Backend: backend, StorageWrapper: wrapper, RootOpts: cfg.Opts()})
 	defer w.Close()
 	gap := logUniform(r, time.Minute, 400*24*time.Hour)
 	if r.Intn(3) == 0 {
@@ -99,7 +102,7 @@ func runEnumCase(t *testing.T, r *rand.Rand, ranks [4]int, nowPos int, variant s
 		// resolution (a call may land in the same wall-clock second as a boundary)
 		gap = time.Duration(150+r.Intn(800)) * time.Millisecond
 	}
-	c := enumCase{Ranks: ranks, NowPos: nowPos, Variant: variant, Wrapper: wrapper, Config: cfg.String(), Gap: gap.String()}
+	c := enumCase{Ranks: ranks, NowPos: nowPos, Variant: variant, Wrapper: wrapper, Backend: backend.String(), Config: cfg.String(), Gap: gap.String()}
 	raw := w.RawRoots()
 	now := time.Now()
 	at := func(rank int) time.Time {
@@ -155,6 +158,10 @@ func runEnumCase(t *testing.T, r *rand.Rand, ranks [4]int, nowPos int, variant s
 	}
 	res, v := vkit.JudgeRotate(w, cfg, reinit, state)
 	c.Expected, c.Observed = string(res.Expected), string(res.Outcome)
+	if res.ReinitOverEmptyRefused {
+		rec.Case("enum/"+variant+"/refused-by-back-end", fmt.Sprintf("%v|%d|%s|%v|%s", ranks, nowPos, variant, wrapper, backend), true, func() any { return c })
+		return
+	}
 	if (variant == "only-current" || variant == "only-next" || variant == "empty-record") && res.Outcome == vkit.Failed {
 		// LoadRootCertificates refuses half-missing records before the decision table
 		// is reached: the call fails closed instead of starting over. The statement
@@ -217,7 +224,8 @@ func TestProp_Sequences(t *testing.T) {
 		r := rand.New(rand.NewSource(rapid.Int64().Draw(t, "cfgseed")))
 		cfg := randomConfig(r)
 		wrapper := rapid.Bool().Draw(t, "wrapper")
-		w := vkit.NewWorld(vkit.WorldConfig{StorageWrapper: wrapper, NoRoots: true})
+		backend := rapid.SampledFrom([]vkit.Backend{vkit.Inmem, vkit.Inmem, vkit.File, vkit.StoreOnce}).Draw(t, "backend")
+		w := vkit.NewWorld(vkit.WorldConfig{Backend: backend, StorageWrapper: wrapper, NoRoots: true})
 		defer w.Close()
 		steps := rapid.IntRange(2, 30).Draw(t, "steps")
 		var shape []string
@@ -268,11 +276,14 @@ func TestProp_Sequences(t *testing.T) {
 			reinit := rapid.IntRange(0, 14).Draw(t, "reinit") == 0
 			res, v := vkit.JudgeRotate(w, cfg, reinit, nil)
 			shape = append(shape, kind+">"+string(res.Outcome))
+			if res.ReinitOverEmptyRefused {
+				rec.Count("reinitialisation_over_empty_storage_refused_by_back_end", 1)
+			}
 			if res.Outcome == vkit.Promote {
 				promotions++
 			}
 			if v.Key != "" {
-				vkit.Violate(t, prop, v.Key, fmt.Sprintf("step %d (%s, advanced %v): %s", i, cfg, d, v.What), map[string]any{"config": cfg.String(), "history": shape, "wrapper": wrapper})
+				vkit.Violate(t, prop, v.Key, fmt.Sprintf("step %d (%s, advanced %v): %s", i, cfg, d, v.What), map[string]any{"config": cfg.String(), "history": shape, "wrapper": wrapper, "backend": backend.String()})
 				return
 			}
 		}
